@@ -87,6 +87,16 @@ func (v *PacketDslFormattor) getHiddenRightAtSameLine(token antlr.Token) string 
 	return strings.TrimRight(sb.String(), "\n")
 }
 
+// getHiddenBeforeClose returns the comments standing in front of the closing brace of a
+// block, indented like the members of the block.
+func (v *PacketDslFormattor) getHiddenBeforeClose(token antlr.Token) string {
+	comments := strings.TrimRight(v.getHiddenLeft(token), "\n")
+	if comments == "" {
+		return ""
+	}
+	return AddIndent4ln(comments)
+}
+
 // VisitPacket overrides the default implementation for protocol definitions.
 func (v *PacketDslFormattor) VisitPacket(ctx *gen.PacketContext) interface{} {
 	var formattedDsl strings.Builder
@@ -139,6 +149,7 @@ func (v *PacketDslFormattor) VisitPacketDefinition(ctx *gen.PacketDefinitionCont
 		}
 	}
 
+	formattedDsl.WriteString(v.getHiddenBeforeClose(ctx.GetStop()))
 	formattedDsl.WriteString("}")
 	formattedDsl.WriteString(v.getHiddenRightAtSameLine(ctx.GetStop()))
 	return formattedDsl.String()
@@ -199,6 +210,7 @@ func (v *PacketDslFormattor) VisitOptionDefinition(ctx *gen.OptionDefinitionCont
 			formattedDsl.WriteString(AddIndent4ln(v.VisitOptionDeclaration(d).(string)))
 		}
 	}
+	formattedDsl.WriteString(v.getHiddenBeforeClose(ctx.GetStop()))
 	formattedDsl.WriteString("}")
 	formattedDsl.WriteString(v.getHiddenRightAtSameLine(ctx.GetStop()))
 	return formattedDsl.String()
@@ -279,6 +291,7 @@ func (v *PacketDslFormattor) VisitInerObjectField(ctx *gen.InerObjectFieldContex
 		formattedDsl.WriteString(AddIndent4ln(result))
 	}
 
+	formattedDsl.WriteString(v.getHiddenBeforeClose(inerObjectDeclaration.GetStop()))
 	formattedDsl.WriteString("},")
 	return formattedDsl.String()
 }
@@ -302,6 +315,7 @@ func (v *PacketDslFormattor) VisitMetaDataDefinition(ctx *gen.MetaDataDefinition
 		}
 	}
 
+	formattedDsl.WriteString(v.getHiddenBeforeClose(ctx.GetStop()))
 	formattedDsl.WriteString("}")
 	return formattedDsl.String()
 }
@@ -410,6 +424,7 @@ func (v *PacketDslFormattor) VisitMatchFieldDeclaration(ctx *gen.MatchFieldDecla
 			formattedDsl.WriteString(AddIndent4ln(lineComment))
 		}
 	}
+	formattedDsl.WriteString(v.getHiddenBeforeClose(ctx.GetStop()))
 	formattedDsl.WriteString("}")
 	return formattedDsl.String()
 }
